@@ -1390,14 +1390,17 @@ pub fn validate_plan(statement: &KmlStatement) -> Result<(), KipError> {
     // Every executable handle must be created by this plan or bound by that
     // clause's own WHERE. Parameters remain runtime bindings and are unaffected.
     for clause in &statement.clauses {
-        let mut allowed = plan_handles.clone();
+        // Only this clause's own WHERE variables are collected per clause; the
+        // plan-wide handle set is consulted in place (cloning it for every
+        // clause made validation quadratic in the number of clauses).
+        let mut where_bound = BTreeSet::new();
         if let Some(where_clauses) = clause_where(clause) {
-            collect_where_variables(where_clauses, &mut allowed);
+            collect_where_variables(where_clauses, &mut where_bound);
         }
         let mut referenced = BTreeSet::new();
         collect_clause_handles(clause, &mut referenced);
         for name in referenced {
-            if !allowed.contains(&name) {
+            if !plan_handles.contains(&name) && !where_bound.contains(&name) {
                 return Err(KipError::reference_error(format!(
                     "?{name} is not bound by this command's mutation outputs or WHERE clause"
                 )));
